@@ -44,6 +44,7 @@ func (p *CodeBuilder) emitMapStringAnyAssert(argVal ast.Expr) ast.Expr {
 		Tok: token.DEFINE,
 		Rhs: []ast.Expr{e},
 	}
+	pkg.markAutoAssert(stmt)
 	p.emitStmt(stmt)
 	return ret
 }
